@@ -9,13 +9,17 @@ args = sys.argv[3:]
 feat = "backend-mmap,backend-atomic,backend-bitmap"
 demo_dest = "tests/demo.rs"
 demo_cmd = None
+wt_override = None
+keep_as = None
 i = 0
 while i < len(args):
     if args[i] == "--features": feat = args[i+1]; i += 2
     elif args[i] == "--demo-cmd": demo_cmd = args[i+1]; i += 2
     elif args[i] == "--demo-dest": demo_dest = args[i+1]; i += 2
+    elif args[i] == "--wt": wt_override = args[i+1]; i += 2
+    elif args[i] == "--as": keep_as = args[i+1]; i += 2
     else: i += 1
-wt = f"/tmp/wt-{prop}"
+wt = wt_override or f"/tmp/wt-{prop}"
 src = f"{wt}/SEEDED/{idx}"
 env = dict(os.environ, CARGO_NET_OFFLINE="true")
 def run(cmd, **kw):
@@ -57,7 +61,7 @@ print(json.dumps(res, indent=1))
 if not res["confirmed"]:
     print("---- demo without change:\n", out0[-800:], "\n---- demo with change:\n", out1[-800:])
     sys.exit(1)
-dst = f"{ROOT}/seeded/{prop}-{idx}"
+dst = f"{ROOT}/seeded/{prop}-{keep_as or idx}"
 os.makedirs(dst, exist_ok=True)
 for f in ["patch.diff", "demo.rs", "README.md"]:
     shutil.copy(f"{src}/{f}", f"{dst}/{f}")
